@@ -14,6 +14,10 @@ cp /verif/demos/logr/*_test.go "$w/teamserver/pkg/logr/" 2>/dev/null || true
 for d in handlers service socks common db; do
   [ -d /verif/demos/$d ] && cp /verif/demos/$d/*_test.go "$w/teamserver/pkg/$d/" 2>/dev/null || true
 done
+# shims for demonstrations that must compile against both the original and the repaired tree
+if grep -q "func peerAddress" "$w/teamserver/pkg/handlers/handlers.go"; then
+  cp /verif/demos/handlers/c12_shim_fixed.txt "$w/teamserver/pkg/handlers/c12_shim_test.go"
+fi
 cd "$w/teamserver"
 export GOFLAGS=-mod=mod GOPROXY=off GOSUMDB=off GOTOOLCHAIN=local
 go test -vet=off -count=1 -run "$pat" ./pkg/agent/ ./cmd/server/ ./pkg/logr/ ./pkg/handlers/ ./pkg/service/ ./pkg/socks/ ./pkg/common/ ./pkg/db/ 2>&1 | grep -v "no test files" | tail -40
